@@ -222,7 +222,8 @@ let run (t : string list) : string =
   | "parse_print" :: mode :: ast ->
       hex_of_bytes (Printer.print_query (Printer.speller (n_of_string mode)) (dec_query ast))
   | "parse_wf" :: ast ->
-      if Printer.wf_query (dec_query ast) then "WF" else "NOTWF"
+      let q = dec_query ast in
+      if Printer.wf_query q && Printer.clean_query q then "WF" else "NOTWF"
   | _ -> "UNKNOWN_PROBE"
 
 let init () = Registry.register "parse_" run
